@@ -185,3 +185,128 @@ class FaultyValueOf:
         if self.mapping is None:
             return item
         return self.mapping[item]
+
+
+class SimSolver:
+    """The external-solver seam: class-level replacement of mip.Model.optimize.
+
+    mode (a dict, swapped per call by the harness):
+      {"mode":"real"}                              delegate to CBC (a finite max_seconds is never forwarded,
+                                                   so CBC's own real clock cannot influence a run)
+      {"mode":"real_then_status","status":S}       CBC really solves (x holds a plausible solution) but S is reported
+      {"mode":"stub_status","status":S}            no solve at all, S is reported (x is None)
+      {"mode":"raise","exc":"InterfacingError"|"MemoryError"|"InjectedFault"}
+      {"mode":"sim_timeout","sim_duration":D,"late":"FEASIBLE"|"NO_SOLUTION_FOUND"}
+                                                   the solve "takes" D simulated seconds: if the max_seconds that
+                                                   the caller forwarded is < D the time-out status is reported
+      optional "preprocess": 0|1|-1                forced on the model before solving (discriminator for CBC's own faults)
+    """
+
+    def __init__(self):
+        self.mode = {"mode": "real"}
+        self.calls = 0
+        self.fired = {}
+        self.last_forwarded_max_seconds = None
+        self._installed = False
+
+    def install(self):
+        if self._installed:
+            return
+        import mip
+        self.mip = mip
+        self._orig = mip.Model.optimize
+        sim = self
+
+        def optimize(model, *args, **kwargs):
+            return sim._optimize(model, args, kwargs)
+        optimize.__name__ = "optimize"
+        mip.Model.optimize = optimize
+        self._installed = True
+
+    def use(self, mode):
+        self.mode = mode or {"mode": "real"}
+
+    def _fire(self, kind):
+        self.fired[kind] = self.fired.get(kind, 0) + 1
+
+    def _optimize(self, model, args, kwargs):
+        mip = self.mip
+        self.calls += 1
+        kwargs = dict(kwargs)
+        args = list(args)
+        max_seconds = kwargs.get("max_seconds", args[0] if args else float("inf"))
+        self.last_forwarded_max_seconds = max_seconds
+        # never let the real solver see a finite limit: its clock is real
+        if args:
+            args[0] = float("inf")
+        else:
+            kwargs["max_seconds"] = float("inf")
+        m = self.mode
+        mode = m.get("mode", "real")
+        if "preprocess" in m:
+            model.preprocess = m["preprocess"]
+        st = mip.OptimizationStatus
+        if mode == "real":
+            return self._orig(model, *args, **kwargs)
+        if mode == "real_then_status":
+            self._orig(model, *args, **kwargs)
+            self._fire("solver_status_" + m["status"])
+            return st[m["status"]]
+        if mode == "stub_status":
+            self._fire("solver_status_" + m["status"])
+            return st[m["status"]]
+        if mode == "raise":
+            self._fire("solver_raise_" + m["exc"])
+            if m["exc"] == "InterfacingError":
+                raise mip.InterfacingError("simulated solver interface failure")
+            if m["exc"] == "MemoryError":
+                raise MemoryError("simulated allocation failure in solver")
+            raise InjectedFault("simulated solver failure")
+        if mode == "sim_timeout":
+            try:
+                timed_out = float(max_seconds) < float(m["sim_duration"])
+            except (TypeError, ValueError):
+                timed_out = False
+            if not timed_out:
+                return self._orig(model, *args, **kwargs)
+            self._fire("solver_sim_timeout_" + m.get("late", "FEASIBLE"))
+            if m.get("late", "FEASIBLE") == "FEASIBLE":
+                self._orig(model, *args, **kwargs)
+                return st.FEASIBLE
+            return st.NO_SOLUTION_FOUND
+        raise ValueError("unknown solver mode " + repr(mode))
+
+
+def warm_up_solver():
+    """First use of the CBC shared library costs ~0.7 s per process: do it once before forking.
+    Does not go through prtpy."""
+    import mip
+    m = mip.Model("warmup")
+    m.verbose = 0
+    x = m.add_var(var_type=mip.INTEGER)
+    y = m.add_var(var_type=mip.INTEGER)
+    m.objective = mip.minimize(x + y)
+    m += x + 2 * y >= 3
+    m += x >= 0
+    m += y >= 0
+    m.optimize()
+    v = m.objective_value
+    # python-mip binds CBC through cffi in ABI mode: every C function is looked up lazily, under a
+    # NON-reentrant lock, the first time it is used. If the garbage collector runs a Model finalizer
+    # (which needs Cbc_deleteModel) while that lock is held for another first-time lookup, the
+    # interpreter dead-locks on itself. Resolve every declared function now, and leave no garbage
+    # behind, so that no child forked from this process can ever hit that window.
+    try:
+        import gc
+        import mip.cbc as _cbc
+        for decl in list(_cbc.ffi._parser._declarations):
+            if decl.startswith("function "):
+                try:
+                    getattr(_cbc.cbclib, decl[len("function "):])
+                except Exception:
+                    pass
+        del m, x, y
+        gc.collect()
+    except Exception:
+        pass
+    return v
